@@ -17,6 +17,7 @@ mod faults;
 mod ledger;
 mod model;
 mod report;
+mod spaces;
 mod sut;
 
 use std::any::Any;
@@ -170,6 +171,11 @@ fn run(args: &[String]) -> Result<(), String> {
             with_n!(n, [checks::bfs_check], &prop, &o, &mut rep)
         }
         "C05" | "C06" | "C10" => with_n!(n, [faults::fault_check], &prop, &o, &mut rep),
+        "C04" => with_n!(n, [spaces::c04_check], &o, &mut rep),
+        "C07" => with_n!(n, [spaces::c07_check], &o, &mut rep),
+        "C08" => with_n!(n, [spaces::c08_check], &o, &mut rep),
+        "C09" => with_n!(n, [spaces::c09_check], &o, &mut rep),
+        "C12" => with_n!(n, [spaces::c12_check], &o, &mut rep),
         _ => return Err(format!("unknown property {}", prop)),
     }
     rep.wall_s = t0.elapsed().as_secs_f64();
@@ -186,6 +192,11 @@ fn replay(args: &[String]) -> Result<i32, String> {
     let r = match prop.as_str() {
         "C01" | "C02" | "C03" | "C11" | "C17" | "C20" => with_n!(n, [checks::replay_bfs], &case),
         "C05" | "C06" | "C10" => with_n!(n, [faults::replay_fault], &case),
+        "C04" => with_n!(n, [spaces::replay_c04], &case),
+        "C07" => with_n!(n, [spaces::replay_c07], &case),
+        "C08" => with_n!(n, [spaces::replay_c08], &case),
+        "C09" => with_n!(n, [checks::replay_generic], &case, &[exec::PKind::Trace, exec::PKind::Contents, exec::PKind::Views, exec::PKind::PanicMismatch, exec::PKind::BadEvent, exec::PKind::Leak, exec::PKind::DeadReachable, exec::PKind::Duplicate]),
+        "C12" => with_n!(n, [spaces::replay_c12], &case),
         _ => return Err(format!("unknown property {}", prop)),
     };
     DONE.store(true, Ordering::Relaxed);
